@@ -427,6 +427,44 @@ func init() {
 			return mkSstr(out), true
 		}
 	}
+	// (*strings.Replacer).Replace on a string with symbolic bytes: single-byte patterns only
+	ext["(*strings.Replacer).Replace"] = func(fr *frame, a []value) (value, bool) {
+		src, ok := a[1].(sstr)
+		if !ok {
+			return nil, false // concrete: interpret the real code
+		}
+		rp := (*a[0].(*value)).(structure)
+		rt := fr.i.namedType("strings", "Replacer")
+		oldnew, _ := rp[fieldIndex(rt, "oldnew")].([]value)
+		var out []value
+		for pos := 0; pos < len(src.b); {
+			replaced := false
+			for k := 0; k+1 < len(oldnew); k += 2 {
+				old, isStr := oldnew[k].(string)
+				if !isStr || len(old) == 0 {
+					abort("strings.Replacer with an empty or symbolic pattern on a symbolic string")
+				}
+				if pos+len(old) > len(src.b) {
+					continue
+				}
+				m := tTrue
+				for c := 0; c < len(old); c++ {
+					m = mkAnd(m, byteEq(src.b[pos+c], old[c]))
+				}
+				if fr.decide(m) {
+					out = append(out, strBytes(oldnew[k+1])...)
+					pos += len(old)
+					replaced = true
+					break
+				}
+			}
+			if !replaced {
+				out = append(out, src.b[pos])
+				pos++
+			}
+		}
+		return mkSstr(out), true
+	}
 	ext["strings.ToLower"] = caseMap(true)
 	ext["strings.ToUpper"] = caseMap(false)
 	ext["internal/abi.NoEscape"] = func(fr *frame, a []value) (value, bool) { return a[0], true }
